@@ -70,6 +70,13 @@ func c13Menu() map[string]c13Up {
 		"G": {Name: "G", Backend: "g", User: "ug@users.test", YAML: func(e map[string]string) string {
 			return svc("svcg", "g.sso.test", e["g"], "", "      allowed_groups:\n        - admins\n", "")
 		}},
+		// rewrites whose pattern is a pure literal: anchored, and not anchored (matches as a substring)
+		"L": {Name: "L", Backend: "l", User: "ul@users.test", YAML: func(e map[string]string) string {
+			return svc("svcl", `^lit\.sso\.test$`, e["l"], "rewrite", addr("ul@users.test"), "")
+		}},
+		"M": {Name: "M", Backend: "m", User: "um@users.test", YAML: func(e map[string]string) string {
+			return svc("svcm", `lit2\.sso\.test`, e["m"], "rewrite", addr("um@users.test"), "")
+		}},
 		// an overlapping rewrite with a fixed backend
 		"S": {Name: "S", Backend: "s", User: "us@users.test", YAML: func(e map[string]string) string {
 			return svc("svcs", `^svc-.*\.sso\.test$`, e["s"], "rewrite", addr("us@users.test"), "")
@@ -88,7 +95,7 @@ func c13Run(c *fw.Ctx) {
 	vtime.SetManual(harness.T0)
 	defer vtime.SetReal()
 	menu := c13Menu()
-	sets := [][]string{{"A", "B"}, {"A", "C"}, {"A", "R", "S"}, {"S", "R", "A"}, {"B", "S"}, {"R", "B", "A"}, {"S", "T"}, {"T", "R", "S"}, {"U", "W"}, {"W", "U"}, {"G", "W"}}
+	sets := [][]string{{"A", "B"}, {"A", "C"}, {"A", "R", "S"}, {"S", "R", "A"}, {"B", "S"}, {"R", "B", "A"}, {"S", "T"}, {"T", "R", "S"}, {"U", "W"}, {"W", "U"}, {"G", "W"}, {"W", "L"}, {"L", "W"}, {"M", "A"}}
 	if c.Thorough() {
 		sets = append(sets, []string{"A", "B", "C"}, []string{"C", "R"}, []string{"S", "A", "B"}, []string{"R", "S", "C"}, []string{"B", "R", "S"})
 	}
@@ -104,7 +111,7 @@ func c13Run(c *fw.Ctx) {
 			return e
 		}
 		// backends first (their addresses go into the document)
-		names := []string{"a", "b", "c", "s", "t", "p", "u", "w", "g"}
+		names := []string{"a", "b", "c", "s", "t", "p", "u", "w", "g", "l", "m"}
 		// ProxyOpts substitutes {{backend:X}}; build the document with those placeholders
 		addrs := map[string]string{}
 		for _, n := range names {
@@ -134,7 +141,7 @@ func c13Run(c *fw.Ctx) {
 		port := e.Backends["p"].Addr()[strings.LastIndex(e.Backends["p"].Addr(), ":")+1:]
 		hosts := []string{"a.sso.test", "A.SSO.TEST", "a.sso.test:443", "b.sso.test", "c.sso.test:8443", "c.sso.test", "svc-" + port + ".sso.test", "svc-x.sso.test", "svc-static.sso.test", "SVC-" + port + ".sso.test", "xsvc-" + port + ".sso.test.evil", "nomatch.test", "",
 			"svc-" + port + ".sso.test:8443", "svc-static.sso.test:8080", "127.0.0.1:" + port, "b.sso.test:80",
-			"x.admin.sso.test", "g.sso.test", "G.sso.test", "other.sso.test"}
+			"x.admin.sso.test", "g.sso.test", "G.sso.test", "other.sso.test", "lit.sso.test", "lit2.sso.test", "lit2.sso.test:8443", "xlit2.sso.test.evil"}
 		host := hosts[x.Choose("host", len(hosts))]
 		// who asks: nobody (no cookie), or the user of upstream k with a cookie minted for host m
 		who := x.Choose("cookie-user", len(ce.ups)+1)
@@ -313,8 +320,8 @@ func init() {
 	fw.Register(&fw.Check{
 		ID:    "C13",
 		Level: "exploration",
-		Rule: "full product over upstream sets of 2-3 routes drawn from {simple a.sso.test, simple b.sso.test with provider_slug, simple with port, rewrite ^svc-(\\d+)\\.sso\\.test$ -> 127.0.0.1:$1, overlapping rewrite with a fixed backend, simple host that also matches that rewrite, a rewrite not anchored at its start, a case-insensitive catch-all rewrite, a simple route with a group rule only} in several orders, loaded through YAML -> SetUpstreamConfigs -> proxy.New with one recording backend per target; " +
-			"Host values {exact, upper-case, with port, port-qualified route with and without port, matching both rewrites, matching only the second, upper-case rewrite host, look-alike, matching none, empty} x cookie {none, user of each upstream} x cookie host binding {this host, two simple hosts, a sibling host of the same rewrite pattern, two more} x cookie slug {own, target's} x X-Forwarded-Host {absent, the host the cookie is bound to} x {the cookie was / was not first presented on the host it is bound to}; " +
+		Rule: "full product over upstream sets of 2-3 routes drawn from {simple a.sso.test, simple b.sso.test with provider_slug, simple with port, rewrite ^svc-(\\d+)\\.sso\\.test$ -> 127.0.0.1:$1, overlapping rewrite with a fixed backend, simple host that also matches that rewrite, a rewrite not anchored at its start, a case-insensitive catch-all rewrite, a simple route with a group rule only, a rewrite whose pattern is an anchored pure literal listed before / after the catch-all, a rewrite whose pattern is an unanchored pure literal} in several orders, loaded through YAML -> SetUpstreamConfigs -> proxy.New with one recording backend per target; " +
+			"Host values {exact, upper-case, with port, port-qualified route with and without port, matching both rewrites, matching only the second, upper-case rewrite host, look-alike, matching none, empty, the literal patterns' host exactly / with a port / inside a longer name} x cookie {none, user of each upstream} x cookie host binding {this host, two simple hosts, a sibling host of the same rewrite pattern, two more} x cookie slug {own, target's} x X-Forwarded-Host {absent, the host the cookie is bound to} x {the cookie was / was not first presented on the host it is bound to}; " +
 			"oracle = reference router over the order in which the configuration resolved the upstreams (exact simple match first, else first matching rewrite; backend = substitution), 421 and no backend for no route, policy/cookie binding/sign-in provider of that upstream only, a session for another host never accepted; " +
 			"distinct_nontrivial = distinct (upstream set, host class, cookie user, status, backends hit)",
 		Assumptions:    []string{"case and port variants of a configured simple host may either route to that upstream or get 421 (the statement says exact match)"},
